@@ -57,6 +57,11 @@ FUNCS = [
     ("replace_range", IMPL, "str_replace_range", [("#ovf", "ovf"), ("range", "range"), ("replace_with", BYTES)], UNIT),
     ("extend", "Extend<char> for String<'bump>", "str_extend_chars", [("iter", CHARS), ("#hint", "hint")], UNIT),
     ("extend", "Extend<&'a str> for String<'bump>", "str_extend_strs", [("iter", STRS)], UNIT),
+    ("extend", "Extend<&'a char> for String<'bump>", "str_extend_char_refs", [("iter", CHARS), ("#hint", "hint")], UNIT),
+    ("extend", "Extend<String<'bump>> for String<'bump>", "str_extend_bstrings", [("iter", STRS)], UNIT),
+    ("extend", "Extend<core_alloc::string::String> for String<'bump>", "str_extend_strings", [("iter", STRS)], UNIT),
+    ("extend", "Extend<Cow<'a, str>> for String<'bump>", "str_extend_cows", [("iter", STRS)], UNIT),
+    ("clone_from", "Clone for String<'bump>", "str_clone_from", [("source", BYTES)], UNIT),
     ("from_iter_in", IMPL, "str_from_iter_in", [("iter", CHARS)], UNIT),
     ("from_str_in", IMPL, "str_from_str_in", [("s", BYTES)], UNIT),
     ("add", "Add<&'a str> for String<'bump>", "str_add", [("other", BYTES)], UNIT),
@@ -130,6 +135,8 @@ class T:
             if e[1] == ("path", ["self"]) and ("self." + e[2]) in env: key = "self." + e[2]
             if e[1][0] == "path" and len(e[1][1]) == 1 and (e[1][1][0] + "." + e[2]) in env: key = e[1][1][0] + "." + e[2]
             if key: return k(env[key][0], env[key][1], env)
+            if e[2] == "vec" and e[1][0] == "path" and len(e[1][1]) == 1 and env.get(e[1][1][0], (None, None))[1] == BYTES:
+                return k(env[e[1][1][0]][0], BYTES, env)       # the byte vector of another string
             if e[2] in ("vec", "s", "string"):
                 return k("self", "self", env)
             raise Untranslatable(f"field .{e[2]}")
@@ -332,9 +339,16 @@ class T:
                             # `Vec::<u8>::splice(range, bytes)` dropped at once: `Vec::drain(range)` (its own `n + 1`, checked only
                             # under the build profile `ovf` unless the source says otherwise) and the replacement in the gap
                             return self.bindc(f"RsS.vec_splice ovf {pa[0][0]} {pa[1][0]}", UNIT, e1, k, can_panic=True)
+                        if name == "extend" and len(pa) == 1 and pa[0][1] == CHARS and "#hint" in e1:
+                            # `Extend<char>`; `.cloned()` of a `&char` iterator reports the same size hint
+                            return self.bindc(f"Gen.Fn.str_extend_chars {pa[0][0]} hint", UNIT, e1, k, can_panic=True)
+                        if name == "clone_from" and len(pa) == 1 and pa[0][1] == BYTES:
+                            # `Vec<u8>` does not override `Clone::clone_from`: std's default `*self = source.clone()`
+                            return self.bindc(f"RsS.vec_clone_from {pa[0][0]}", UNIT, e1, k)
                         if name in BY_NAME:
                             return self.bindc(f"Gen.Fn.{BY_NAME[name]} {' '.join((a + '.1') if ta == CH else a for a, ta in pa)}", UNIT, e1, k, can_panic=True)
                     if ty in (CHARS, STRS) and name == "into_iter" and not pa: return k(t, ty, e1)
+                    if ty == CHARS and name == "cloned" and not pa: return k(t, ty, e1)
                     if ty == UNITS and name in ("iter", "cloned") and not pa: return k(t, UNITS, e1)
                     if ty == UNITS and name == "len" and not pa: return k(f"{t}.length", NAT, e1)
                     if ty == CH and name == "len_utf8" and not pa: return k(f"{t}.2", NAT, e1)
